@@ -89,14 +89,15 @@ def eval_tt(tt, c, X, Y, body, head, red, W=None):
         T = tt.diag(T)
     elif head == "full":
         T = T.full()
-    elif head == "bcast":
-        T = T + (W if W is not None else tt.TT([q.clone() for q in c.w]))
+    elif head in ("bcast", "bmul", "bsub"):
+        w_ = W if W is not None else tt.TT([q.clone() for q in c.w])
+        T = T + w_ if head == "bcast" else (T * w_ if head == "bmul" else T - w_)
     return reduce_tt(tt, c, T, head, red, A)
 
 
 def result_shape(c, head):
     N, d = c.N, c.d
-    if head in ("id", "full", "bcast", "ell"): return list(N)
+    if head in ("id", "full", "bcast", "bmul", "bsub", "ell"): return list(N)
     if head == "rslice": return [N[0] - 1] + list(N[1:])
     if head == "slice": return list(N[1:]) if d > 1 else [N[0] - 1]
     if head == "cat": return [2 * N[0]] + list(N[1:])
@@ -176,8 +177,9 @@ def eval_dense(c, xl, yl, body, head, red, wl=None):
         full_idx = tuple(idx[:, j] for j in range(d)) * 2
         E = E.index_put(full_idx, T.reshape(-1))
         T = E
-    if head == "bcast":
-        T = T + contract(wl if wl is not None else c.w)
+    if head in ("bcast", "bmul", "bsub"):
+        wd_ = contract(wl if wl is not None else c.w)
+        T = T + wd_ if head == "bcast" else (T * wd_ if head == "bmul" else T - wd_)
     G, z, rows, item = constants(c, head)
     zd = contract(z)
     if red == "wsum": return (T * G).sum()
